@@ -29,6 +29,9 @@ vp_take_read_until(reader, max_buf_len, b'\n', buf)
         fault_free(old(reader)) ==> fault_free(final(reader)), // id: fault_free_kept [C02]
         fault_free(old(reader)) && le_len(wire(old(reader))) is Some ==> res.is_ok(), // id: present_line_ending_is_ok [C01]
 //@@ end
+//@@ ifdef head
+//@@ include head_buffers
+//@@ endif
 }
 
 //@@ fn src/parsing/chunked_reader.rs - parse_chunk_size props=C01,C02,C05
